@@ -3,7 +3,7 @@ from __future__ import annotations
 import ast
 from .py2lean import (TranslationError,
                       translate_logic_fn, find_func, find_class, lean_str, lean_list)
-from .py2lean_int import translate_range_decorator, translate_int_class   # int dialect, 2nd edition (C01)
+from .py2lean_int import translate_range_decorator, translate_int_class, exc_names_resolved   # int dialect, 2nd edition (C01)
 from .common import parse, HEADER, exc_names, lean_exc
 
 
@@ -24,13 +24,13 @@ def gen_num() -> str:
         for node in ast.walk(f):
             if isinstance(node, ast.Try):
                 for h in node.handlers:
-                    hs += exc_names(h.type)
+                    hs += exc_names_resolved(ev, evcls, h.type)
         out.append(f"def handlers_{rule} : List Cel.Exc := " + lean_list([lean_exc(c) for c in hs]))
     res = find_func(ev.body, "result")
     tries = [s for s in res.body if isinstance(s, ast.Try)]
     if len(tries) != 1 or len(tries[0].handlers) != 1:
         raise TranslationError("result(): expected exactly one try/except")
-    out.append("def resultCaughtNum : List Cel.Exc := " + lean_list([lean_exc(c) for c in exc_names(tries[0].handlers[0].type)]))
+    out.append("def resultCaughtNum : List Cel.Exc := " + lean_list([lean_exc(c) for c in exc_names_resolved(ev, None, tries[0].handlers[0].type)]))
     out.append("end Cel.Gen\n")
     return "\n".join(out)
 
